@@ -122,6 +122,8 @@ def ev(e):
     """'ds3=ab' -> ('ds', 3, 0xab)"""
     if e == "F":
         return ("F", None, None)
+    if e == "BADLEN":                   # marker of the instrumented storages: a buffer of the wrong length was passed (see oracle_c09)
+        return ("BADLEN", None, None)
     kind = e[:2]
     if "=" in e:
         a, b = e[2:].split("=")
